@@ -454,6 +454,15 @@ class Analyzer:
 
     def cond_effects(self, cond, states, fl):
         k = cond.get("k")
+        # `matches!(e, PAT)` (expanded: `match e { PAT => true, _ => false }`) is `let PAT = e`
+        if k == "mac" and cond.get("name") == "matches" and cond.get("e") is not None and cond.get("pat") is not None and cond.get("guard") is None:
+            return self.cond_effects({"k": "let", "pat": cond["pat"], "e": cond["e"], "sp": cond.get("sp", [0, 0, 0, 0])}, states, fl)
+        if k == "match" and len(cond["arms"]) == 2 and all(a.get("guard") is None and a["body"].get("k") == "lit" and a["body"].get("t") == "bool" for a in cond["arms"]) \
+                and cond["arms"][1]["pat"].get("k") == "p_wild" and cond["arms"][0]["body"]["v"] != cond["arms"][1]["body"]["v"]:
+            t, f = self.cond_effects({"k": "let", "pat": cond["arms"][0]["pat"], "e": cond["e"], "sp": cond.get("sp", [0, 0, 0, 0])}, states, fl)
+            return (t, f) if cond["arms"][0]["body"]["v"] is True else (f, t)
+        if k == "paren":
+            return self.cond_effects(cond["e"], states, fl)
         if k == "let":
             e = cond["e"]
             ps = sir.pat_str(cond["pat"])
@@ -687,7 +696,11 @@ class Analyzer:
                     gt, _gf = self.cond_effects(a["guard"], ast, fl)
                     ast = gt
                 sub = Flow()
-                self._flow(a["body"], ast, sub)
+                body = a["body"]
+                if body.get("k") != "block":
+                    # `pat => call(ps)` : the arm's value is the match's value - same treatment as the tail expression of a block
+                    body = {"k": "block", "stmts": [{"k": "expr", "e": body, "semi": False, "sp": body.get("sp", [0, 0, 0, 0])}], "sp": body.get("sp", [0, 0, 0, 0])}
+                self._flow(body, ast, sub)
                 self._merge(fl, sub)
                 out += sub.fall
             fl.fall = uniq(out)
